@@ -337,6 +337,13 @@ pub fn run(ctx: &Ctx, rep: &mut Report) {
         let keys = world.keys();
         let mode = MODES[(wi % 3) as usize];
         let mut t = Tok::new(&world.dict, mode);
+        // every third world analyses with a narrow field request (no path-rewrite plugin data is needed for what is
+        // checked here: byte and code-point offsets and the raw surface)
+        if wi % 3 == 2 {
+            let bits = *rng.pick(&[0x000u32, 0x001, 0x004, 0x200, 0x009]);
+            t.tok.set_subset(crate::fields::subset_of(bits));
+            rep.count("worlds_with_a_narrow_field_request", 1);
+        }
         // output lists of on-demand splits: one that never held an analysis, one that holds the analysis of another text
         let mut out_empty = sudachi::prelude::MorphemeList::empty(&world.dict);
         let mut texts: Vec<String> = (0..40).map(|_| textgen::text_from_keys(&mut rng, &keys, 8)).collect();
